@@ -85,6 +85,73 @@ func deniedOnlyForExistingContent(c *core.Ctx, rule string) {
 	if n == 0 {
 		c.Note(rule + ": no DENIED return found in DeleteBlob / DeleteManifest themselves")
 	}
+	// the same obligation seen from the query that decides the refusal: wherever the
+	// deleters (or a helper they share) ask whether the digest is reachable from a
+	// tag, the lookup of the digest has already succeeded in that calling context
+	refers := findRefersTo(c)
+	if refers == nil {
+		return
+	}
+	isLookupOK := func(cd facts.Cond) bool {
+		if x, isNil, ok := facts.NilCheck(cd); ok && isNil {
+			var call *ssa.Call
+			switch y := facts.Resolve(x).(type) {
+			case *ssa.Call:
+				call = y
+			case *ssa.Extract:
+				call, _ = y.Tuple.(*ssa.Call)
+			}
+			if call != nil && call.Call.StaticCallee() != nil && (lookupHelperFor(call.Call.StaticCallee(), "blobs") || lookupHelperFor(call.Call.StaticCallee(), "manifests")) {
+				return true
+			}
+		}
+		if ex, ok := cd.V.(*ssa.Extract); ok && ex.Index == 1 && cd.Pos {
+			if lk, ok := ex.Tuple.(*ssa.Lookup); ok && lk.CommaOk {
+				if fld, ok := memMapField(lk.X); ok && (fld == "blobs" || fld == "manifests") {
+					return true
+				}
+			}
+		}
+		if x, isNil, ok := facts.NilCheck(cd); ok && !isNil {
+			if lk, ok := facts.Resolve(x).(*ssa.Lookup); ok {
+				if fld, ok := memMapField(lk.X); ok && (fld == "blobs" || fld == "manifests") {
+					return true
+				}
+			}
+		}
+		return false
+	}
+	seenSite := map[ssa.CallInstruction]bool{}
+	for _, name := range []string{"DeleteBlob", "DeleteManifest"} {
+		fn := declaredMethod(c, types.NewPointer(reg), name)
+		if fn == nil {
+			continue
+		}
+		for _, f := range withHelpers(fn) {
+			if f == refers || outermost(f) == refers {
+				continue
+			}
+			for _, ci := range facts.CallsIn(f) {
+				if ci.Common().StaticCallee() != refers || seenSite[ci] {
+					continue
+				}
+				seenSite[ci] = true
+				good := true
+				for _, cx := range contextsOf(ci.Block(), 2) {
+					found := false
+					for _, cd := range cx.Conds {
+						if isLookupOK(cd) {
+							found = true
+						}
+					}
+					if !found {
+						good = false
+					}
+				}
+				c.Check(good, rule, fnName(outermost(f))+"/reachability-asked-after-lookup", ci.Pos(), "the reachability query runs only after the digest was found", "the deleters ask whether the digest is reachable from a tag (the test that leads to DENIED) in a calling context where the digest has not been looked up successfully: deleting something that is not there can be answered DENIED instead of *_UNKNOWN in immutable-tags mode")
+			}
+		}
+	}
 }
 
 // successfulMethodPassesThrough (C03.R16 / C04.R10; seed C03-O): every
@@ -331,6 +398,16 @@ func iterYieldsInOrderThroughTheWrapper(c *core.Ctx, rule string) {
 // the callback continues (returns true) only where the answer is known false,
 // so a later sibling cannot overwrite a positive answer.
 func reachabilityStopsWhenFound(c *core.Ctx, rule string) {
+	refers := findRefersTo(c)
+	if refers == nil {
+		return
+	}
+	reachabilityStopsWhenFoundIn(c, rule, refers)
+}
+
+// findRefersTo: ocimem's reachability query, by shape:
+// func(*repository, iterator, digest) (bool, error).
+func findRefersTo(c *core.Ctx) *ssa.Function {
 	var refers *ssa.Function
 	for _, f := range c.P.ModuleFunctions("ocimem") {
 		s := f.Signature
@@ -342,9 +419,10 @@ func reachabilityStopsWhenFound(c *core.Ctx, rule string) {
 			}
 		}
 	}
-	if refers == nil {
-		return
-	}
+	return refers
+}
+
+func reachabilityStopsWhenFoundIn(c *core.Ctx, rule string, refers *ssa.Function) {
 	n := 0
 	for _, lit := range facts.WithAnon(refers) {
 		if lit == refers {
